@@ -166,7 +166,9 @@ pub(crate) fn gen_key(r: &mut Rng, mode: KeyMode) -> Cell {
 
 /// tag maps have string keys only (a tag map is itself a map: other key types are the same finding)
 pub(crate) fn gen_tagged(r: &mut Rng, c: Cell, depth: u32) -> Cell {
-    match r.below(5) {
+    match r.below(6) {
+        // the tags the implementation itself attaches to what the read words hand back (a big-endian 16-bit read)
+        5 => c.insert_tag(Cell::from("big"), Cell::Flag(true)).insert_tag(Cell::from("len"), Cell::Int(*r.pick(&[8i128, 16, 13]))),
         0 => c.insert_tag(Cell::from("k"), Cell::Int(r.range(0, 9) as i128)),
         1 => c.insert_tag(Cell::from("#fmt"), Cell::Int(*r.pick(&[2i128, 8, 10, 16, 16 | 256, 10 | 512]))),
         2 => c.with_tags(Xmap::new()),
@@ -648,11 +650,22 @@ fn contains_nan(c: &Cell) -> bool {
 }
 
 fn equal_cases(ctx: &mut Ctx, base: &Xstate, fails: &mut Fails) {
-    let a = gen_value(&mut ctx.rng, 2);
-    let b = match ctx.rng.below(3) {
-        0 => a.clone(),
-        1 => gen_tagged(&mut ctx.rng, a.clone(), 1),
-        _ => gen_value(&mut ctx.rng, 2),
+    let (a, b) = if ctx.rng.chance(15) {
+        // reals that differ, by however little: equality is exact (what the map's key order distinguishes, `equal?` does too)
+        ctx.tag("equal?:neighbouring-reals");
+        let x = *ctx.rng.pick(&[1.0e-17f64, 0.0, 1.0, -1.0e-300, 0.1, 3.0e-16, 123456.0]);
+        let y = match ctx.rng.below(4) { 0 => f64::from_bits(x.to_bits().wrapping_add(1)), 1 => x + 1.0e-17, 2 => x * (1.0 + f64::EPSILON), _ => x };
+        let wrap = |c: Cell, k: u32| if k == 0 { c } else { vec_cell(&[Cell::Int(1), c]) };
+        let k = ctx.rng.below(2) as u32;
+        (wrap(Cell::Real(x), k), wrap(Cell::Real(y), k))
+    } else {
+        let a = gen_value(&mut ctx.rng, 2);
+        let b = match ctx.rng.below(3) {
+            0 => a.clone(),
+            1 => gen_tagged(&mut ctx.rng, a.clone(), 1),
+            _ => gen_value(&mut ctx.rng, 2),
+        };
+        (a, b)
     };
     if contains_nan(&a) || contains_nan(&b) { ctx.tag("equal?:nan-outside-the-quantifier"); return; }
     let (out, _) = run_src(base, "equal?", &[a.clone(), b.clone()]);
@@ -691,6 +704,23 @@ pub fn run(ctx: &mut Ctx) {
         let lit = vec![(Cell::from("a"), Cell::Int(1)), (Cell::Int(5), Cell::Int(2))];
         let ok = st.map(|st| st.len() == 1 && map_agrees(&st[0], &lit)).unwrap_or(false);
         check(ctx, &mut fails, "[incomparable-keys] ", ok, || format!("C12 {{}} {}", canon::stack_str(&args)), || alist_str(&lit), || out.clone());
+    }
+    // collection literals are collection literals wherever they stand: inside a meta block, with values of the surrounding
+    // program below them on the stack, `{ … }` and `[ … ]` build what they build at top level
+    for below in ["", "10", "10 20", "[ 7 ] 8 9"] {
+        for lit in ["{ 1 \"a\" 2 \"b\" }", "{ }", "[ 1 2 3 ]", "[ ]", "{ 5 [ 1 { 2 3 } ] }", "[ { 1 2 } { } ]"] {
+            // (the values below come from an earlier source: a block runs while its own source is still being read)
+            let run = |src: String| -> (String, Vec<String>) {
+                let mut xs = base.clone();
+                let _ = crate::guarded(|| xs.eval(below));
+                let r = crate::guarded(|| xs.eval(&src));
+                (format!("{:?}", r.map(|r| r.map_err(|e| canon::err(&e)))), canon::stack(&xs).iter().map(canon::cell).collect())
+            };
+            let inside = run(format!("#( {} #)", lit));
+            let plain = run(lit.to_string());
+            check(ctx, &mut fails, "", inside == plain, || format!("C12 `{}` then `#( {} #)` vs `{}` then `{}`", below, lit, below, lit), || format!("{:?}", plain), || format!("{:?}", inside));
+            ctx.tag("literal-inside-a-meta-block");
+        }
     }
     // 2. sequences
     for s in 0..ctx.n {
